@@ -5,7 +5,11 @@ Import ListNotations.
 Local Open Scope Z_scope.
 
 (* clock rate; calls (pts, now in Unix ns); observed outputs (Unix ns) *)
-Inductive case := Hist (rate : Z) (calls : list (Z * Z)) (outs : list Z).
+Inductive case :=
+| Hist (rate : Z) (calls : list (Z * Z)) (outs : list Z)
+  (* the same, observed on a real Stream (delivered PTS, clock reading of the estimator, NTP carried by the unit), from
+     the estimator state read when the observation started *)
+| HistFrom (rate : Z) (inited : bool) (ref_ntp ref_pts : Z) (calls : list (Z * Z)) (outs : list Z).
 
 Fixpoint eq_lists (a b : list Z) : bool :=
   match a, b with
@@ -15,7 +19,11 @@ Fixpoint eq_lists (a b : list Z) : bool :=
   end.
 
 Definition mismatch (c : case) : bool :=
-  match c with Hist rate calls outs => negb (eq_lists (run rate est0 calls) outs) end.
+  match c with
+  | Hist rate calls outs => negb (eq_lists (run rate est0 calls) outs)
+  | HistFrom rate i rn rp calls outs =>
+      negb (eq_lists (run rate {| inited := i; ref_ntp := rn; ref_pts := rp |} calls) outs)
+  end.
 
 (* The property on the observed outputs only:
    (1) now - 5 s <= out <= now for every call;
@@ -43,4 +51,6 @@ Fixpoint steady (rate : Z) (calls : list (Z * Z)) (outs : list Z) : bool :=
   end.
 
 Definition spec_fail (c : case) : bool :=
-  match c with Hist rate calls outs => negb (windows calls outs && steady rate calls outs) end.
+  match c with
+  | Hist rate calls outs | HistFrom rate _ _ _ calls outs => negb (windows calls outs && steady rate calls outs)
+  end.
